@@ -305,6 +305,11 @@ thread_local! {
     /// after a reset (`clear`): a freshly built editor with the same configuration and user dictionary,
     /// driven with the same ops from then on
     static TWIN: std::cell::RefCell<Option<Editor>> = const { std::cell::RefCell::new(None) };
+    /// query twin (C17, "inserting getter calls leaves the results of all other calls unchanged"): a second
+    /// editor built from the same setup that executes every op except the `get` ops and is NEVER observed
+    /// through a query function; after every op its result and its hook snapshot must equal the main editor's
+    static QTWIN: std::cell::RefCell<Option<Editor>> = const { std::cell::RefCell::new(None) };
+    static QSTATE: std::cell::Cell<u8> = const { std::cell::Cell::new(0) };   // 0 not built, 1 running, 2 stopped
     static CUR_SETUP: std::cell::RefCell<Option<CaseSetup>> = const { std::cell::RefCell::new(None) };
     static CUR_ENGINE: std::cell::Cell<u8> = const { std::cell::Cell::new(1) };
 }
@@ -312,6 +317,8 @@ thread_local! {
 fn begin_case(setup: &CaseSetup, sparse: bool) {
     SPARSE.with(|c| c.set(sparse));
     TWIN.with(|t| *t.borrow_mut() = None);
+    QTWIN.with(|t| *t.borrow_mut() = None);
+    QSTATE.with(|c| c.set(0));
     CUR_SETUP.with(|c| *c.borrow_mut() = Some(setup.clone()));
     CUR_ENGINE.with(|c| c.set(1));
 }
@@ -413,6 +420,47 @@ fn twin_after(ed: &mut Editor, op: &Op, out: &mut String) {
     }
 }
 
+/// run the op on the never-queried twin and compare result + hook snapshot with the main editor's
+fn qtwin_after(op: &Op, main_res: Option<&str>, main_snap: &str, out: &mut String) {
+    if QSTATE.with(|c| c.get()) == 0 {
+        let setup = CUR_SETUP.with(|c| c.borrow().clone());
+        if let Some(setup) = setup {
+            let scratch = std::env::temp_dir().join(format!("vharness-ed-{}", std::process::id())).join("qtwin");
+            let _ = std::fs::create_dir_all(&scratch);
+            let tw = build_editor(&setup, &scratch);
+            let _ = take_conversion_log();
+            QTWIN.with(|t| *t.borrow_mut() = Some(tw));
+            QSTATE.with(|c| c.set(1));
+        }
+    }
+    if QSTATE.with(|c| c.get()) != 1 || matches!(op, Op::Get(_)) {
+        return;
+    }
+    let mut tw = QTWIN.with(|t| t.borrow_mut().take()).unwrap();
+    let r = catch(AssertUnwindSafe(|| apply(&mut tw, op)));
+    let _ = take_conversion_log();
+    let tw_res = r.ok();
+    let tw_snap = if tw_res.is_some() { tw.verif_snapshot() } else { String::new() };
+    if tw_res.as_deref() == main_res && (main_res.is_none() || tw_snap == main_snap) {
+        let _ = writeln!(out, "Q ok");
+        if tw_res.is_some() {
+            QTWIN.with(|t| *t.borrow_mut() = Some(tw));
+        } else {
+            QSTATE.with(|c| c.set(2));
+        }
+    } else {
+        let _ = writeln!(
+            out,
+            "Q MISMATCH queried={:?}/{} unqueried={:?}/{}",
+            main_res,
+            main_snap.replace(' ', "_"),
+            tw_res,
+            tw_snap.replace(' ', "_")
+        );
+        QSTATE.with(|c| c.set(2));
+    }
+}
+
 fn observe(ed: &mut Editor, out: &mut String) {
     // the observation itself converts once: log it separately
     let disp = catch(AssertUnwindSafe(|| {
@@ -501,11 +549,14 @@ fn step(ed: &mut Editor, op: &Op, out: &mut String) -> bool {
         Err(msg) => {
             let _ = writeln!(out, "# panic: {}", msg.replace('\n', " "));
             let _ = writeln!(out, "R PANIC");
+            qtwin_after(op, None, "", out);
             false
         }
         Ok(res) => {
             let _ = writeln!(out, "R {}", res);
-            let _ = writeln!(out, "S {}", ed.verif_snapshot());
+            let snap = ed.verif_snapshot();
+            let _ = writeln!(out, "S {}", snap);
+            qtwin_after(op, Some(&res), &snap, out);
             twin_after(ed, op, out);
             let nobs = match op {
                 Op::Get(n) => *n,
@@ -632,10 +683,13 @@ fn gen_setup(rng: &mut Rng) -> (CaseSetup, World) {
     let with_word: Vec<usize> = (0..n).filter(|i| !no_word[*i]).collect();
     let chain = if with_word.len() >= 2 && rng.chance(1, 2) {
         let c: [usize; 4] = [*rng.pick(&with_word), *rng.pick(&with_word), *rng.pick(&with_word), *rng.pick(&with_word)];
+        // every second chain: all its phrases carry the same frequency, so that the segmentations a-b | c and
+        // a | b-c score (nearly) alike and a single learning step can swap their rank (seeded change C02-C)
+        let same_freq = if rng.chance(1, 2) { Some(rng.below(5000) as u32) } else { None };
         for (x, y) in [(c[0], c[1]), (c[2], c[3]), (c[1], c[2])] {
             for _ in 0..(1 + rng.below(2)) {
                 let text: String = (0..2).map(|_| cjk(rng)).collect();
-                let e = Entry { key: vec![syls[x], syls[y]], text, freq: rng.below(5000) as u32, time: rng.below(50) };
+                let e = Entry { key: vec![syls[x], syls[y]], text, freq: same_freq.unwrap_or(rng.below(5000) as u32), time: rng.below(50) };
                 if rng.chance(1, 5) { usr.push(e) } else { sys.push(e) }
             }
         }
@@ -779,6 +833,68 @@ fn gen_case(rng: &mut Rng, n: usize, tier: &str, scratch: &std::path::Path, out:
                         ops.push(key_op(*k, none));
                     }
                 }
+                _ if !selecting && world.chain.is_some() && rng.chance(1, 4) => {
+                    // alternatives, then commit: type a b c (d) of the chain (two or more segmentations), Tab at
+                    // the end of the buffer shows the next alternative, then Enter / commit with learning on: what
+                    // is committed (and learned) is what was displayed, whatever learning does to the ranking
+                    let c = world.chain.unwrap();
+                    let mut o = opts_vec(&ed.editor_options());
+                    o[5] = if rng.chance(4, 5) { 0 } else { 1 };
+                    o[6] = 39;
+                    ops.push(Op::Opts(o));
+                    for i in &c[..(3 + rng.below(2) as usize)] {
+                        for k in &world.keys[*i] {
+                            ops.push(key_op(*k, none));
+                        }
+                    }
+                    ops.push(key_op(End, none));
+                    for _ in 0..(1 + rng.below(3)) {
+                        ops.push(key_op(Tab, none));
+                    }
+                    ops.push(if rng.chance(2, 3) { key_op(Enter, none) } else { Op::Commit });
+                }
+                _ if !selecting && rng.chance(1, 6) => {
+                    // a list opened with a single key, the user dictionary changed for exactly the highlighted
+                    // syllable before any other key, then a choice near the end of the list: the never-queried
+                    // twin must see the same list as the observed editor (seeded change C17-C)
+                    let i = rng.below(world.syls.len() as u64) as usize;
+                    ops.push(Op::Clear);
+                    for k in &world.keys[i] {
+                        ops.push(key_op(*k, none));
+                    }
+                    ops.push(key_op(Down, none));
+                    let words: Vec<String> = setup.sys.iter().chain(setup.usr.iter()).filter(|e| e.key.len() == 1 && e.key[0] == world.syls[i]).map(|e| e.text.clone()).collect();
+                    if !words.is_empty() && rng.chance(1, 2) {
+                        ops.push(Op::Unlearn(vec![world.syls[i]], rng.pick(&words).clone()));
+                    } else {
+                        ops.push(Op::Learn(vec![world.syls[i]], cjk(rng).to_string()));
+                    }
+                    let n = words.len();
+                    ops.push(Op::Select(match rng.below(3) { 0 => n, 1 => n.saturating_sub(1), _ => rng.below(n as u64 + 2) as usize }));
+                }
+                _ if !selecting && rng.chance(1, 6) => {
+                    // a long phrase (12..14 syllables) in the user dictionary, typed, chosen as a whole at the start
+                    // of the buffer, then edited further (seeded change C03-C: an edge longer than 11 symbols)
+                    let n = 12 + rng.below(3) as usize;
+                    let key: Vec<Syllable> = (0..n).map(|_| world.syls[rng.below(world.syls.len() as u64) as usize]).collect();
+                    let text: String = (0..n).map(|_| cjk(rng)).collect();
+                    let mut o = opts_vec(&ed.editor_options());
+                    o[6] = 39;
+                    ops.push(Op::Opts(o));
+                    ops.push(Op::Clear);
+                    ops.push(Op::Learn(key.clone(), text));
+                    for s in &key {
+                        let i = world.syls.iter().position(|x| x == s).unwrap();
+                        for k in &world.keys[i] {
+                            ops.push(key_op(*k, none));
+                        }
+                    }
+                    ops.push(key_op(Home, none));
+                    ops.push(key_op(Down, none));
+                    ops.push(if rng.chance(3, 4) { Op::Select(0) } else { digit(rng) });
+                    ops.push(key_op(End, none));
+                    ops.push(key_op(*rng.pick(&[Tab, Enter, Left]), none));
+                }
                 0 if world.chain.is_some() => {
                     // overlapping choices: type a b c d, choose at 0, at 2, then at 1
                     let c = world.chain.unwrap();
@@ -852,6 +968,11 @@ fn gen_case(rng: &mut Rng, n: usize, tier: &str, scratch: &std::path::Path, out:
                                 } else {
                                     ops.push(Op::Learn(key.clone(), (0..key.len()).map(|_| cjk(rng)).collect()));
                                 }
+                            }
+                            // ... and a choice right afterwards, at the end of the list as it was / as it is now
+                            // (seeded change C17-C: a list remembered by a query outlives the dictionary change)
+                            if rng.chance(2, 3) {
+                                ops.push(Op::Select(match rng.below(3) { 0 => cands.len(), 1 => cands.len() - 1, _ => rng.below(cands.len() as u64 + 1) as usize }));
                             }
                             pool.push((key.clone(), cands[0].clone()));
                         }
@@ -1150,10 +1271,12 @@ fn conv_cases(tier: &str, out_path: &str) -> i32 {
             let _ = usr.as_dict_mut().unwrap().update_phrase(&e.key, Phrase::new(e.text.as_str(), e.freq), e.freq, e.time);
         }
         let dict = Layered::new(vec![Box::new(sys)], Box::new(usr));
-        let len = 1 + rng.below(if tier == "thorough" { 30 } else { 14 }) as usize;
+        // every eighth case: a choice of 12 symbols or more (a learned run of words picked as a whole)
+        let long_choice = n % 8 == 3;
+        let len = if long_choice { 12 + rng.below(9) as usize } else { 1 + rng.below(if tier == "thorough" { 30 } else if dense { 18 } else { 14 }) as usize };
         let mut comp = Composition::new();
         for _ in 0..len {
-            if rng.chance(1, if dense { 12 } else { 7 }) {
+            if !long_choice && rng.chance(1, if dense { 12 } else { 7 }) {
                 comp.push(Symbol::from(*rng.pick(&['a', '，', '1', 'Z', '。'])));
             } else {
                 comp.push(Symbol::from(world.syls[rng.below(alphabet as u64) as usize]));
@@ -1180,6 +1303,18 @@ fn conv_cases(tier: &str, out_path: &str) -> i32 {
             let ph = rng.pick(&cands).clone();
             comp.push_selection(Interval { start: b, end: e, is_phrase: true, str: ph.as_str().into() });
             nsel += 1;
+        }
+        // a long choice (what the editor records when a learned run of words is picked): any all-syllable range
+        // of 5 symbols or more, with a text of that many characters
+        if (long_choice || rng.chance(1, 4)) && len >= 5 {
+            let min = if long_choice { 12 } else { 5 };
+            let b = rng.below((len - min + 1) as u64) as usize;
+            let e = b + min + rng.below((len - b - min + 1) as u64) as usize;
+            if !comp.symbols()[b..e].iter().any(|s| s.is_char()) {
+                let text: String = (0..(e - b)).map(|_| cjk(&mut rng)).collect();
+                comp.push_selection(Interval { start: b, end: e, is_phrase: true, str: text.into() });
+                nsel += 1;
+            }
         }
         for _ in 0..rng.below(3) {
             let i = rng.below(len as u64) as usize;
